@@ -40,7 +40,7 @@ impl Check for C20 {
         "C20"
     }
     fn rule(&self) -> String {
-        "each scenario = operation {get hit/miss, touch hit/miss, set, put insert/existing} x front-end {plain, sharded, stacked depth 1-3 with plain/sharded levels, read-only depth 1-3} x hit level x checker on/off, executed on four fresh simulated filesystems whose directories (each shard, for sharded) are pre-populated with 0, 10, 100 and 2000 entries, maintenance scripted not to fire; and again with maintenance firing for the descriptor clauses; in a third of the write scenarios the first publication attempt (rename/link) fails with EIO/ENOSPC/ENOENT/EXDEV/EACCES so that the retry path runs on the populated directory. Oracle from the call trace and the simulated descriptor table: the multiset of call kinds is identical across the four sizes, a lookup makes <= 2 open attempts per cache directory, no opendir/readdir outside maintenance, peak descriptors+streams attributable to the call <= 2 (<= 3 with a checker), residual descriptors = 1 iff a handle is returned else 0, no lock primitive. Non-trivial = every scenario (four sizes compared); distinct = scenario signature".to_string()
+        "each scenario = operation {get hit/miss, touch hit/miss, set, put insert/existing} x front-end {plain, sharded, stacked depth 1-3 with plain/sharded levels, read-only depth 1-3} x hit level x checker on/off, executed on four fresh simulated filesystems whose directories (each shard, for sharded) are pre-populated with 0, 10, 100 and 2000 entries, maintenance scripted not to fire; and again with maintenance firing for the descriptor clauses; in a third of the write scenarios the first publication attempt (rename/link) fails with EIO/ENOSPC/ENOENT/EXDEV/EACCES so that the retry path runs on the populated directory; one scenario in 24 measures the operation through a warm handle (600 earlier writes through it, load estimates saturated) instead of a fresh one. Oracle from the call trace and the simulated descriptor table: the multiset of call kinds is identical across the four sizes, a lookup makes <= 2 open attempts per cache directory, no opendir/readdir outside maintenance, peak descriptors+streams attributable to the call <= 2 (<= 3 with a checker), residual descriptors = 1 iff a handle is returned else 0, no lock primitive. Non-trivial = every scenario (four sizes compared); distinct = scenario signature".to_string()
     }
     fn runs(&self, tier: Tier) -> u64 {
         match tier {
@@ -58,6 +58,8 @@ impl Check for C20 {
         let depth = if front >= 2 { 1 + tape.draw(3) as usize } else { 1 };
         let kinds: Vec<bool> = (0..depth).map(|i| if front == 0 { false } else if front == 1 { true } else { let _ = i; tape.draw(2) == 1 }).collect();
         let nshards = 2 + tape.draw(3) as usize;
+        let warm_pre = tape.draw(24) == 23;
+        let nshards = if warm_pre { 2 } else { nshards };
         let checker = if front >= 2 && tape.draw(2) == 1 { CheckerKind::ByteEq } else { CheckerKind::None };
         let op = *tape.pick(&if front == 3 { vec![Op20::GetHit, Op20::GetMiss, Op20::TouchHit, Op20::TouchMiss] } else { vec![Op20::GetHit, Op20::GetMiss, Op20::TouchHit, Op20::TouchMiss, Op20::Set, Op20::PutInsert, Op20::PutExisting] });
         let hit_level = tape.draw(depth as u64) as usize;
@@ -67,12 +69,16 @@ impl Check for C20 {
         // fault dimension: the first publication attempt of a write fails, so
         // that the retry path runs on a populated directory
         let fail_first_pub = matches!(op, Op20::Set | Op20::PutInsert | Op20::PutExisting) && tape.draw(3) == 0;
+        // "warm handle" dimension: the measured operation is issued through a
+        // handle that has already performed several hundred writes (in-memory
+        // load estimates saturated), not through a fresh one
+        let warm = front != 3 && warm_pre && !maintain;
         let fail_errno = *tape.pick(&[libc::EIO, libc::ENOSPC, libc::ENOENT, libc::EXDEV, libc::EACCES]);
         let (kh, ks) = solve_key(tape, nshards, (0, 1));
         let in_secondary = tape.draw(2) == 1;
         let key = KeySpec { name: "thekey".into(), hash: kh, sec: ks };
         let sizes: Vec<usize> = if maintain { vec![0, 10, 100] } else { SIZES.to_vec() };
-        let desc = format!("front={} depth={} sharded_levels={:?} shards={} checker={:?} op={:?} hit_level={} lower_copy={} maintain={} auto_sync={} key_in_secondary={} {}", ["plain", "sharded", "stack", "readonly"][front as usize], depth, kinds, nshards, checker, op, hit_level, also_lower_copy, maintain, auto_sync, in_secondary, kn.describe()) + &format!(" fail_first_publication={} ({})", fail_first_pub, fail_errno);
+        let desc = format!("front={} depth={} sharded_levels={:?} shards={} checker={:?} op={:?} hit_level={} lower_copy={} maintain={} auto_sync={} key_in_secondary={} {}", ["plain", "sharded", "stack", "readonly"][front as usize], depth, kinds, nshards, checker, op, hit_level, also_lower_copy, maintain, auto_sync, in_secondary, kn.describe()) + &format!(" fail_first_publication={} ({}) warm_handle={}", fail_first_pub, fail_errno, warm);
         let mut observations: Vec<Obs> = Vec::new();
         let mut total_steps = 0;
         let mut total_ns = 0;
@@ -131,6 +137,28 @@ impl Check for C20 {
                         None
                     }
                 }));
+            }
+            if warm {
+                // 600 writes of unrelated keys through the same handle; the
+                // trigger never fires (huge capacity, scripted draws)
+                for i in 0..600u32 {
+                    let wk = KeySpec { name: format!("warm{}", i), hash: (i as u64).wrapping_mul(0x9e3779b97f4a7c15), sec: (i as u64).wrapping_mul(0xc2b2ae3d27d4eb4f) ^ 77 };
+                    let wsrc = format!("{}/warmsrc", SCRATCH);
+                    {
+                        let mut f = File::create(&wsrc).expect("source");
+                        f.write_all(&make_value(&wk.name, i, 2)).expect("write");
+                    }
+                    let wp = std::path::Path::new(&wsrc);
+                    let r = lib(|| match &h {
+                        Handle::Plain(c) => c.put(&wk.name, wp),
+                        Handle::Sharded(c) => c.put(wk.key(), wp),
+                        Handle::Stack(c) => c.put(wk.key(), wp),
+                        Handle::ReadOnly(_) => Ok(()),
+                    });
+                    if r.is_err() {
+                        break;
+                    }
+                }
             }
             let base = w.sim.lock().procs[0].fds.len();
             let mark = w.trace_len();
@@ -257,6 +285,10 @@ impl Check for C20 {
         }
         out.nontrivial = true;
         out.sig = hash_str(&format!("{}|{}|{:?}|{:?}|{:?}|{}|{}|{}|{}|{}|{}|{}", front, depth, kinds, checker, op, hit_level, also_lower_copy, maintain, auto_sync, in_secondary, fail_first_pub, fail_errno));
+        if warm {
+            out.sig = mix(out.sig, 0x77a3);
+            out.count("scenarios_with_warm_handle", 1);
+        }
         if fail_first_pub {
             out.count("fault:first_publication_attempt", 1);
         }
